@@ -135,7 +135,7 @@ impl World {
         let mut listed = vec![];
         let mut cursor: Option<String> = None;
         loop {
-            let page: Res<MemberListResponse> = self.q(&QueryMsg::ListMembers { start_after: cursor.clone(), limit: Some(30) });
+            let page: Res<MemberListResponse> = self.q(&QueryMsg::ListMembers { start_after: cursor.clone(), limit: Some(2) });
             let Res::Ok(page) = page else {
                 h.violate(&format!("{prop}/stake/list-members-failed"), "query failed".into());
                 return None;
@@ -145,6 +145,9 @@ impl World {
             }
             cursor = page.members.last().map(|m| m.addr.clone());
             listed.extend(page.members.into_iter().map(|m| (m.addr, m.weight)));
+            if listed.len() > 500 {
+                break;
+            }
         }
         let total: Res<TotalWeightResponse> = self.q(&QueryMsg::TotalWeight {});
         let Res::Ok(total) = total else {
@@ -376,7 +379,13 @@ impl Stake {
                 let d = match &w.tok {
                     Tok::Cw20(a) => a.to_string(),
                     // a different bank token whose name differs from the staking denom in letter case only
-                    Tok::Native => if *amount % 2 == 0 { STAKE_DENOM.to_uppercase() } else { "Ustake".to_string() },
+                    Tok::Native => match *amount % 5 {
+                        0 => STAKE_DENOM.to_uppercase(),
+                        1 => "Ustake".to_string(),
+                        2 => format!("factory/cosmwasm1xyz/{STAKE_DENOM}"), // has the staking denom as a suffix
+                        3 => format!("x{STAKE_DENOM}"),
+                        _ => format!("{STAKE_DENOM}x"),                      // ... or as a prefix
+                    },
                 };
                 w.c.fund(sender, *amount, &d);
                 w.c.exec(sender, &st, &ExecuteMsg::Bond {}, &[coin(*amount, d)])
@@ -739,7 +748,122 @@ impl Stake {
         true
     }
 
+    /// The bank of the AppDriver cannot hold balances whose sum exceeds u128, so stakes near the type limit
+    /// are driven through the real entry points directly (funds attached to the call, native configuration).
+    fn direct_extremes(&self, h: &mut Hist) {
+        use crate::direct::World;
+        use cosmwasm_std::MessageInfo;
+        let users: Vec<String> = pool().actors[..3].to_vec();
+        let mut w = World::new(h.rng.range(10, 5000), h.rng.range(1_600_000_000, 1_800_000_000));
+        let tpw: u128 = *h.rng.pick(&[1u128, 7, 1_000_000_000, 1u128 << 64, 1_000_000_000_000_000_000_000_000_000_000]);
+        let min_bond: u128 = *h.rng.pick(&[0u128, 1, 5, 1u128 << 70]);
+        let msg = InstantiateMsg { denom: Denom::Native(STAKE_DENOM.into()), tokens_per_weight: Uint128::new(tpw), min_bond: Uint128::new(min_bond), unbonding_period: Duration::Height(3), admin: None };
+        let creator = users[0].clone();
+        let r = w.tx(|d, e| cw4_stake::contract::instantiate(d, e, MessageInfo { sender: Addr::unchecked(&creator), funds: vec![] }, msg));
+        h.note(format!("direct cw4-stake: tokens_per_weight {tpw} min_bond {min_bond} => {}", r.class()));
+        if !r.is_ok() {
+            return;
+        }
+        let staked = |w: &World, u: &str| -> Option<u128> {
+            w.q(|d, e| cw4_stake::contract::query(d, e, QueryMsg::Staked { address: u.to_string() }).and_then(|b| cosmwasm_std::from_json::<StakedResponse>(&b))).ok().map(|s| s.stake.u128())
+        };
+        let weight = |w: &World, u: &str| -> Option<Option<u64>> {
+            w.q(|d, e| cw4_stake::contract::query(d, e, QueryMsg::Member { addr: u.to_string(), at_height: None }).and_then(|b| cosmwasm_std::from_json::<MemberResponse>(&b))).ok().map(|m| m.weight)
+        };
+        for _ in 0..h.tier.pick(30, 50) {
+            w.advance(1, 5);
+            let u = h.rng.pick_cloned(&users);
+            let Some(before) = staked(&w, &u) else {
+                h.violate("C10/direct/query-failed", format!("Staked({u})"));
+                return;
+            };
+            let others: Vec<(String, Option<u128>)> = users.iter().filter(|x| **x != u).map(|x| (x.clone(), staked(&w, x))).collect();
+            let room = u128::MAX - before;
+            let bond = h.rng.chance(2, 3);
+            let amt: u128 = if bond {
+                match h.rng.below(8) {
+                    0 => room,
+                    1 => room.saturating_add(1).max(1),
+                    2 => room.saturating_sub(h.rng.below(200) as u128),
+                    3 => u128::MAX - h.rng.below(200) as u128,
+                    4 => (room / 2).max(1),
+                    5 => 1 + h.rng.below(2000) as u128,
+                    6 => (u64::MAX as u128).saturating_mul(tpw.min(1 << 60)),
+                    _ => (1u128 << 127) + h.rng.below(1000) as u128,
+                }
+            } else {
+                match h.rng.below(4) {
+                    0 => before,
+                    1 => before.saturating_add(1),
+                    2 => before / 2,
+                    _ => 1 + h.rng.below(2000) as u128,
+                }
+            };
+            let r = if bond {
+                let funds = vec![coin(amt, STAKE_DENOM)];
+                w.tx(|d, e| cw4_stake::contract::execute(d, e, MessageInfo { sender: Addr::unchecked(&u), funds }, ExecuteMsg::Bond {}))
+            } else {
+                w.tx(|d, e| cw4_stake::contract::execute(d, e, MessageInfo { sender: Addr::unchecked(&u), funds: vec![] }, ExecuteMsg::Unbond { tokens: Uint128::new(amt) }))
+            };
+            h.out.evaluations += 1;
+            h.log(|| format!("{} {} {amt} (stake before {before}) => {}", short(&u), if bond { "bond" } else { "unbond" }, r.class()));
+            if let Res::Abort(_) = &r {
+                h.out.abort(&crate::direct::last_panic_site());
+            }
+            let Some(after) = staked(&w, &u) else {
+                h.violate("C10/direct/query-failed", format!("Staked({u})"));
+                return;
+            };
+            let want = if !r.is_ok() {
+                Some(before)
+            } else if bond {
+                before.checked_add(amt)
+            } else {
+                before.checked_sub(amt)
+            };
+            h.out.oracle_checks += 1;
+            h.out.distinct(&("direct", bond, r.class(), amt > room, tpw > 1 << 60));
+            if want != Some(after) {
+                h.violate(
+                    &format!("C10/direct/{}/stake-not-changed-by-exactly-the-amount", if bond { "bond" } else { "unbond" }),
+                    format!("{} of {amt} by {u} ({}): stake {before} -> {after}, expected {want:?}", if bond { "bond" } else { "unbond" }, r.class()),
+                );
+                return;
+            }
+            if r.is_ok() && bond && amt > room / 2 && amt > 1 << 100 {
+                h.out.count("direct_bonds_near_the_top_of_u128_ok");
+            }
+            if !r.is_ok() && bond && amt > room {
+                h.out.count("direct_bonds_beyond_u128_refused");
+            }
+            for (x, s0) in &others {
+                if staked(&w, x) != *s0 {
+                    h.violate("C10/direct/other-stake-changed", format!("{x}: {s0:?} -> {:?} by a call of {u}", staked(&w, x)));
+                    return;
+                }
+            }
+            // weight follows stake
+            if let Some(wt) = weight(&w, &u) {
+                let q = after / tpw;
+                let good = match wt {
+                    Some(x) => after >= min_bond.max(1) && q <= u64::MAX as u128 && x as u128 == q,
+                    None => after < min_bond.max(1),
+                };
+                h.out.oracle_checks += 1;
+                if !good {
+                    h.violate("C10/direct/weight-not-stake-over-tokens-per-weight", format!("{u}: stake {after} tokens_per_weight {tpw} min_bond {min_bond} reported weight {wt:?}"));
+                    return;
+                }
+            }
+        }
+        h.out.count("direct_histories_at_the_top_of_u128");
+    }
+
     pub fn run(&self, h: &mut Hist) {
+        if self.prop == "C10" && h.idx % 8 == 5 {
+            self.direct_extremes(h);
+            return;
+        }
         let Some(mut w) = self.setup(h) else {
             return;
         };
@@ -804,7 +928,7 @@ impl Monitor for Stake {
         tier.pick(1_000, 96_000)
     }
     fn mandatory(&self) -> Vec<&'static str> {
-        vec![
+        let mut v = vec![
             "bonds_ok",
             "unbonds_ok",
             "partial_unbonds_ok",
@@ -816,7 +940,11 @@ impl Monitor for Stake {
             "foreign_token_attempts",
             "members_exactly_at_min_bond",
             "stakes_below_min_bond_not_members",
-        ]
+        ];
+        if self.prop == "C10" {
+            v.extend(["direct_histories_at_the_top_of_u128", "direct_bonds_near_the_top_of_u128_ok", "direct_bonds_beyond_u128_refused"]);
+        }
+        v
     }
     fn rule(&self) -> &'static str {
         "seeded random histories on cw4-stake inside a cw-multi-test App with the real bank / cw20-base as stake token: tokens_per_weight in {1,3,1000,2^64,random}, min_bond in {0,1,5000,random}, height- and time-based unbonding periods incl. 0 and 1; three users bond (amounts up to quotients beyond 64 bits), partially unbond, claim at maturity -1/0/+1, and try wrong denoms, extra coins, another cw20 and direct Receive calls; third parties donate. After every call Staked, Claims, Member, TotalWeight and the real token balances of the contract and users are compared with an independent ledger. distinct = (operation, outcome, native?, caller had stake?, tokens_per_weight==1?, min_bond==0?)"
